@@ -1,7 +1,7 @@
 (* Property C09: changing options between runs never yields stale results.
    Only theorem statements closed by `exact`, each followed by Print Assumptions. *)
 From Coq Require Import List String Bool.
-From C09 Require Import Model Proofs Table Statement ProofsTable.
+From C09 Require Import Model Proofs Table Statement ProofsTable ImportOpts ProofsImport.
 From Gen Require Import OptionsTable OptionsClass.
 Import ListNotations.
 Open Scope string_scope.
@@ -13,25 +13,27 @@ Section Mechanism.
   Variable src_eqb : src -> src -> bool.
   Variable iface_eqb : iface -> iface -> bool.
   Variable resolve : opts -> modid -> opts.
-  Variable analyze : src -> list iface -> opts -> iface * list etuple.
+  (* last argument of analyze: the recorded import options of the module's suppressed dependencies (`imp`) *)
+  Variable analyze : src -> list iface -> opts -> list value -> iface * list etuple.
   Variable key_np dir_names : list name.
   Variable fmt : opts -> list etuple -> list string.
+  Variable imp : opts -> src -> list value.
   Variable reads : list name.
   (* hashes are the identity *)
   Hypothesis mod_eqb_eq : forall a b, mod_eqb a b = true -> a = b.
   Hypothesis src_eqb_eq : forall a b, src_eqb a b = true -> a = b.
   Hypothesis iface_eqb_eq : forall a b, iface_eqb a b = true -> a = b.
   (* contract, monitored not proved: the analysis reads options only through `reads` *)
-  Hypothesis analyze_reads : forall s ds o o',
-    (forall n, In n reads -> get o n = get o' n) -> analyze s ds o = analyze s ds o'.
+  Hypothesis analyze_reads : forall s ds o o' x,
+    (forall n, In n reads -> get o n = get o' n) -> analyze s ds o x = analyze s ds o' x.
   Hypothesis resolve_dir : forall o m n, In n dir_names -> get (resolve o m) n = get o n.
 
-  Notation cold := (cold src iface etuple modid mod_eqb src_eqb iface_eqb resolve analyze key_np dir_names).
-  Notation warm := (warm src iface etuple modid mod_eqb src_eqb iface_eqb resolve analyze key_np dir_names).
+  Notation cold := (cold src iface etuple modid mod_eqb src_eqb iface_eqb resolve analyze key_np dir_names imp).
+  Notation warm := (warm src iface etuple modid mod_eqb src_eqb iface_eqb resolve analyze key_np dir_names imp).
   Notation output := (output src iface etuple modid fmt).
   Notation cache_after := (cache_after src iface etuple modid).
   Notation tuples := (tuples src iface etuple modid).
-  Notation run_history := (run_history src iface etuple modid mod_eqb src_eqb iface_eqb resolve analyze key_np dir_names fmt).
+  Notation run_history := (run_history src iface etuple modid mod_eqb src_eqb iface_eqb resolve analyze key_np dir_names fmt imp).
 
   (* every option read is in the snapshot key or selects the cache directory  ==>  warm = cold *)
   Theorem warm_eq_cold_options :
@@ -40,7 +42,7 @@ Section Mechanism.
       output o2 (warm (cache_after (cold fs o1)) fs o2) = output o2 (cold fs o2).
   Proof.
     exact (Proofs.warm_eq_cold_options src iface etuple modid mod_eqb src_eqb iface_eqb resolve analyze key_np
-             dir_names fmt mod_eqb_eq src_eqb_eq iface_eqb_eq reads analyze_reads resolve_dir).
+             dir_names fmt imp mod_eqb_eq src_eqb_eq iface_eqb_eq reads analyze_reads resolve_dir).
   Qed.
 
   (* any history of (program, options) runs on one cache: every run prints what a cold run would print *)
@@ -50,7 +52,7 @@ Section Mechanism.
       snd (run_history [] h) = map (fun fo => output (snd fo) (cold (fst fo) (snd fo))) h.
   Proof.
     exact (Proofs.history_from_empty src iface etuple modid mod_eqb src_eqb iface_eqb resolve analyze key_np
-             dir_names fmt mod_eqb_eq src_eqb_eq iface_eqb_eq reads analyze_reads resolve_dir).
+             dir_names fmt imp mod_eqb_eq src_eqb_eq iface_eqb_eq reads analyze_reads resolve_dir).
   Qed.
 
   (* options not read by the analysis (formatting) act on the replayed tuples: run 2 prints run 1's tuples
@@ -59,16 +61,43 @@ Section Mechanism.
     (forall n, In n reads -> In n ("platform" :: key_np) \/ In n dir_names) ->
     forall fs o1 o2, is_lax o1 = false -> is_lax o2 = false ->
       (forall m n, In n reads -> get (resolve o1 m) n = get (resolve o2 m) n) ->
+      (forall s, imp o1 s = imp o2 s) ->
       output o2 (warm (cache_after (cold fs o1)) fs o2)
       = flat_map (fun mt => fmt o2 (snd mt)) (tuples (cold fs o1)).
   Proof.
     exact (Proofs.post_load_after_cold src iface etuple modid mod_eqb src_eqb iface_eqb resolve analyze key_np
-             dir_names fmt mod_eqb_eq src_eqb_eq iface_eqb_eq reads analyze_reads resolve_dir).
+             dir_names fmt imp mod_eqb_eq src_eqb_eq iface_eqb_eq reads analyze_reads resolve_dir).
   Qed.
 End Mechanism.
 Print Assumptions warm_eq_cold_options.
 Print Assumptions option_history_sound.
 Print Assumptions post_load_applied_late.
+
+(* Import options of dependencies (State.suppressed_deps_opts, compared by State.is_fresh = the `imp` component of the
+   mechanism): with the priority filter GENERATED from the source, equal recorded values imply equal import options
+   (ignore_missing_imports, follow_imports, follow_imports_for_stubs of the dependency's own section) for every
+   suppressed dependency whose import can produce a diagnostic -- hence equal import diagnostics. *)
+Theorem import_priorities_covered :
+  (forall p, In p diag_priorities -> sdo_covered p = true) /\ sdo_covered pri_indirect = false.
+Proof. exact ProofsImport.import_priorities_covered. Qed.
+Print Assumptions import_priorities_covered.
+
+Theorem suppressed_deps_opts_sound : forall (D : Type) (diags : list sdep -> (string -> opts) -> D),
+  (forall sup r1 r2,
+     (forall d, In d sup -> In (d_prio d) diag_priorities ->
+        dep_import_options (r1 (d_name d)) = dep_import_options (r2 (d_name d))) -> diags sup r1 = diags sup r2) ->
+  forall sup r1 r2, suppressed_deps_opts sdo_covered r1 sup = suppressed_deps_opts sdo_covered r2 sup ->
+    diags sup r1 = diags sup r2.
+Proof. exact ProofsImport.generated_sdo_sound. Qed.
+Print Assumptions suppressed_deps_opts_sound.
+
+(* a filter that drops PRI_LOW / PRI_MYPY (`< PRI_LOW`) is refuted *)
+Theorem narrow_priority_filter_refuted :
+  exists sup r1 r2 d, In d sup /\ In (d_prio d) diag_priorities /\
+    suppressed_deps_opts mutant_cov r1 sup = suppressed_deps_opts mutant_cov r2 sup /\
+    dep_import_options (r1 (d_name d)) <> dep_import_options (r2 (d_name d)).
+Proof. exact ProofsImport.mutant_filter_refuted. Qed.
+Print Assumptions narrow_priority_filter_refuted.
 
 (* TABLE THEOREM over the generated table: every attribute of Options.__init__ is classified; `key` = member of the
    generated OPTIONS_AFFECTING_CACHE; `dir` is read by the cache-location code and is global; `post_load` is not read
